@@ -601,6 +601,31 @@ fn scripted(l: &mut Local) {
         c.w.run_for(6000);
         liveness(&mut c, "packet", json!({"ptr_target_first_label": format!("{} x 'a' + backslash", pad)}), l);
     }
+    // the same with a label of characters outside ASCII behind it: once merged (the daemon reads "\." as an
+    // escaped dot when it writes the name again) the 63-byte limit falls inside a 2-, 3- or 4-byte character
+    for pad in 55usize..=62 {
+        for (k, second) in ["\u{65e5}\u{672c}\u{8a9e}", "\u{1f600}\u{1f5a8}", "\u{e9}\u{fc}\u{df}", "x\u{20ac}\u{20ac}"].iter().enumerate() {
+            let mut c = setup(3000 + (pad * 8 + k) as u64);
+            l.evaluations += 1;
+            let mut first = vec![b'a'; pad];
+            first.push(b'\\');
+            let mut inst: Name = vec![first, second.as_bytes().to_vec()];
+            inst.extend(wire::name(OK_TYPE));
+            let mut m = Message::response();
+            m.answers.push(wire::ptr(&wire::name(OK_TYPE), 4500, &inst));
+            c.w.inject_msg(c.h, 2, scen::peer4(50), &m);
+            c.w.run_for(3000);
+            if !c.w.hosts[c.h].dead {
+                // and as a question from a one-shot querier, which the daemon echoes in its unicast reply
+                let mut q = Message::query();
+                q.questions.push(wire::question(&wire::name("mine._mine._tcp.local"), wire::T_ANY));
+                q.questions.push(wire::question(&inst, wire::T_ANY));
+                c.w.inject_msg(c.h, 2, sock4([10, 0, 0, 50], 40000), &q);
+                c.w.run_for(3000);
+            }
+            liveness(&mut c, "packet", json!({"ptr_target_labels": format!("{pad} x 'a' + backslash, then {second:?}")}), l);
+        }
+    }
 }
 
 pub fn run(report: &Report, tier: &Tier) {
